@@ -11,7 +11,7 @@ import Ecpint.Gen.GammaTable
   sw <tailCut> <closedForms> <radialScreen> <pairScreen> <prescreen> <finest>      → one `V <nA> <nB> <v>*` per sw line
   screens                                                 → `S <v>*` the per-l estimates -/
 namespace Driver.Pair
-open Ecpint Ecpint.ShellPair Driver.Radial
+open Ecpint Ecpint.ShellPair Ecpint.Contraction Driver.Radial
 
 def piF : Float := 3.14159265358979323846
 def eulerF : Float := 2.71828182845904523536
